@@ -35,6 +35,20 @@ H = {
  "C17_r4b": "first run missed (irradiance was never negative); detected after the irradiance column starts below zero",
  "C18_r4b": "first run missed (stamps always on the local hour); detected after UTC-lattice data in zones with 30/45-minute offsets",
  "C20_r4b": "first run missed (float readings only); detected after integer / nullable / float32 shapes",
+ # round 5
+ "C01_r5a": "first run missed (no fitted model with a custom week whose split was selected; C13 saw it through its document-built models); detected after part P profile weekday_map on a building that follows the custom week",
+ "C01_r5b": "first run missed (complete CalTRACK baselines only); detected after profile caltrack_gappy",
+ "C02_r5b": "first run missed (every other model lived in the same zone); detected after operation other_model_in_another_zone_same_instants",
+ "C04_r5a": "evaluated with the patch rebased onto fix 0a54c7d4 (same function); the first C04 run after realisation june_ghi_8d_missing existed detected it",
+ "C05_r5b": "first run missed (CalTRACK reporting data through the frame constructor only); detected after variant from_series_weather_in_utc (the opposite orientation, meter in UTC, already fails on the unchanged tree: known finding)",
+ "C07_r5a": "first run missed (daily weather only); its patch no longer applies since fix 6c84e1dc rewrote the same statement - the equivalent edit on the repaired tree (fill without a limit) is detected by C07 (day_without_temperature_readings_gets_a_temperature) and C09 (tools/try_mutant.py)",
+ "C07_r5b": "first run missed (aggregated frames were held to the totals identity only); detected after the row-pairing and period-sum clauses and the first-period states",
+ "C13_r5a": "first run missed (one frame per model object); detected after two more frames of the same period with different gaps",
+ "C13_r5b": "first run missed (the oracle asked the library's own criterion function, which the change had altered consistently); detected after the textbook BIC reference and the exact two-level meter",
+ "C14_r5b": "first run missed (wavelet names were not among the alternative values); detected after the wavelet cluster",
+ "C16_r5a": "first run missed (usage never below zero in the fits); detected after the net-metered fits",
+ "C19_r5a": "first run missed (document-built models are never refitted); detected after the refit histories",
+ "C20_r5a": "first run missed (max_days >= 1 only); detected after max_days 0.5 and 0",
 }
 for sid, text in H.items():
     f = f"/verif/seeded/{sid}/meta.json"
